@@ -14,6 +14,8 @@ Decided clauses (necessary ordering / sealing conditions):
   C15.e  what the link machinery asks of the type layer: mapping targets / parameters
          are recognised through the type's origin; link targets below a mapping entry
          are narrowed by the entry's key only
+  C15.f  decisions of _add_signature_parameter that depend on `is_required` come after the
+         reclassification of required link targets
 Not decided: target == f(sources) for all inputs and precedence mixes.
 """
 
@@ -287,6 +289,41 @@ def run(ctx: Ctx) -> int:
         "link targets below a mapping entry are selected by the entry's key alone" if ok else "link targets below a mapping entry are only kept when they continue with `init_args.`: for entries of dataclass type the target is not passed down, the nested parser requires the linked parameter from the user again (dump / save of a parsed configuration fail)",
         fn=ad15,
         construct="linked_targets narrowed by key only",
+    )
+
+    # ---------------- C15.f ----------------------------------------------------
+    # "the target of a link is not required from the user": _add_signature_parameter turns a required parameter that
+    # is a link target into an optional one.  Every decision that depends on `is_required` (fallback type for untyped
+    # parameters, default, positional/required) is taken AFTER that reclassification - a decision taken on the
+    # old value treats the link target as a mandatory untyped parameter and leaves it out of the parser
+    asp = ctx.func("_signatures:SignatureArguments._add_signature_parameter")
+    gs_ = ctx.cfg(asp)
+    rdefs = [s for s in walk_local(asp) if isinstance(s, ast.Assign) and isinstance(s.targets[0], ast.Name) and isinstance(s.value, ast.Compare) and "inspect_empty" in ast.unparse(s.value) and isinstance(s.value.ops[0], ast.Eq)]
+    ctx.need(rdefs, "_add_signature_parameter: <is_required> = default == inspect_empty")
+    rq = rdefs[0].targets[0].id
+    writes = [s for s in walk_local(asp) if isinstance(s, ast.Assign) and s is not rdefs[0] and any(isinstance(t, ast.Name) and t.id == rq for t in s.targets)]
+    ctx.floor("C15.f-reclassifications", len(writes), 2)
+    lt_w = [w for w in writes if any("linked_targets" in ast.unparse(t) for t, _ in guard_chain(w, stop=asp))]
+    ctx.need(lt_w, "_add_signature_parameter: reclassification of required link targets")
+    stale = []
+    for w in lt_w:
+        wn = set(gs_.cn(w))
+        others = [i for x in writes if x is not w for i in gs_.cn(x)]
+        own_guards = {id(n_) for t, _ in guard_chain(w, stop=asp) for n_ in ast.walk(t)}
+        for r in [n_ for n_ in walk_local(asp) if isinstance(n_, ast.Name) and n_.id == rq and isinstance(n_.ctx, ast.Load) and id(n_) not in own_guards]:
+            rn = gs_.cn(r)
+            if not rn or set(rn) & wn:
+                continue
+            if gs_.reachable(rn, removed=others) & wn:
+                stale.append(r)
+    ok = not stale
+    ctx.oblige(
+        "C15.f",
+        ok,
+        stale[0] if stale else lt_w[0],
+        f"every decision that reads `{rq}` comes after the reclassification of required link targets" if ok else f"`{rq}` is read (line {stale[0].lineno}) before required link targets are reclassified as optional: an untyped mandatory parameter that is a link target gets no fallback type and is left out of the class parser - the link is ignored, and a configuration that supplies the target is rejected",
+        fn=asp,
+        construct="decisions after reclassification",
     )
 
     return ctx.finish(
